@@ -12,7 +12,7 @@ Notation "0" := (f0 F). Notation "1" := (f1 F).
 Infix "+" := (fadd F). Infix "*" := (fmul F). Infix "-" := (fsub F). Infix "/" := (fdiv F).
 Notation "- x" := (fopp F x).
 Notation NO := (FNum F).
-Add Field Ffield_Zero : (fKf F).
+Add Field Ffield_ZeroA : (fKf F).
 
 Lemma chi0_free_offdiag : forall eps beta i j k l z1 z2 z3,
   (Nat.eqb i l && Nat.eqb j k = false)%bool -> (Nat.eqb i k && Nat.eqb j l = false)%bool ->
@@ -41,25 +41,5 @@ Proof. intros. wick_expand F. ring. Qed.
 
 Lemma chi_0111_zero : forall beta tol E0 E1 E2 E3 w0 w1 w2 w3 z1 z2 z3,
   chi K NO beta tol [E0;E1;E2;E3] [w0;w1;w2;w3] (Cm F 2 0) (Cm F 2 1) (CXm F 2 1) (CXm F 2 1) z1 z2 z3 = 0.
-Proof. intros. wick_expand F. ring. Qed.
-
-Lemma chi_1000_zero : forall beta tol E0 E1 E2 E3 w0 w1 w2 w3 z1 z2 z3,
-  chi K NO beta tol [E0;E1;E2;E3] [w0;w1;w2;w3] (Cm F 2 1) (Cm F 2 0) (CXm F 2 0) (CXm F 2 0) z1 z2 z3 = 0.
-Proof. intros. wick_expand F. ring. Qed.
-
-Lemma chi_1011_zero : forall beta tol E0 E1 E2 E3 w0 w1 w2 w3 z1 z2 z3,
-  chi K NO beta tol [E0;E1;E2;E3] [w0;w1;w2;w3] (Cm F 2 1) (Cm F 2 0) (CXm F 2 1) (CXm F 2 1) z1 z2 z3 = 0.
-Proof. intros. wick_expand F. ring. Qed.
-
-Lemma chi_1100_zero : forall beta tol E0 E1 E2 E3 w0 w1 w2 w3 z1 z2 z3,
-  chi K NO beta tol [E0;E1;E2;E3] [w0;w1;w2;w3] (Cm F 2 1) (Cm F 2 1) (CXm F 2 0) (CXm F 2 0) z1 z2 z3 = 0.
-Proof. intros. wick_expand F. ring. Qed.
-
-Lemma chi_1101_zero : forall beta tol E0 E1 E2 E3 w0 w1 w2 w3 z1 z2 z3,
-  chi K NO beta tol [E0;E1;E2;E3] [w0;w1;w2;w3] (Cm F 2 1) (Cm F 2 1) (CXm F 2 0) (CXm F 2 1) z1 z2 z3 = 0.
-Proof. intros. wick_expand F. ring. Qed.
-
-Lemma chi_1110_zero : forall beta tol E0 E1 E2 E3 w0 w1 w2 w3 z1 z2 z3,
-  chi K NO beta tol [E0;E1;E2;E3] [w0;w1;w2;w3] (Cm F 2 1) (Cm F 2 1) (CXm F 2 1) (CXm F 2 0) z1 z2 z3 = 0.
 Proof. intros. wick_expand F. ring. Qed.
 End Case.
